@@ -83,11 +83,11 @@ Definition matvec (vs nr nc : nat) : inst :=
   let xo := vs * nr * nc in
   mkinst
     (map (fun r => e_dot (evars (r * nc) nc) (evars (xo + (r / nr) * nc) nc)) (seq 0 (vs * nr)))
-    ((* d b / d A: nonzero(block_diag(*repeat(x, nr, axis=0))) ; vals repeat(x, nr, axis=0).ravel() *)
+    ((* d b / d A: nonzero of block_diag of the rows of repeat(x, nr, axis=0) ; vals repeat(x, nr, axis=0).ravel() *)
      map (fun t => let r := t / nc in let j := t mod nc in
                    ((r, r * nc + j), EVar (xo + (r / nr) * nc + j)))
          (seq 0 (vs * nr * nc)) ++
-     (* d b / d x: nonzero(block_diag(*A)) ; vals A.ravel() *)
+     (* d b / d x: nonzero of block_diag of the matrices of A ; vals A.ravel() *)
      map (fun t => let r := t / nc in let j := t mod nc in
                    ((r, xo + (r / nr) * nc + j), EVar t))
          (seq 0 (vs * nr * nc))).
